@@ -49,6 +49,11 @@ def generate(seed, tier):
             sc['ops'].append({'t': round(r.uniform(0.95, sc['until']), 3), 'op': 'kerr', 'node': r.choice('AB'), 'nth': r.randint(1, 4),
                               'errno': r.choice(['ENOMEM', 'EINVAL', 'ENOBUFS', 'EEXIST'])})
     sc['ops'].sort(key=lambda x: x['t'])
+    if r.random() < 0.2:
+        # a peer that proposes, for a new or rekeyed CHILD_SA, an SPI it already uses with us: the kernel refuses the duplicate with a
+        # genuine EEXIST, and whatever clean-up follows must not name the healthy SA that owns the triple
+        sc['byz'] = {'kind': 'reuse_spi_request', 'seed': r.randrange(2 ** 31)}
+        sc['meta']['byz'] = 'reuse_spi_request'
     return sc
 
 
@@ -94,9 +99,18 @@ def judge(w, tap, ctx, scenario, reach):
                     return V('policy_lifetime_not_infinite', {'field': f}, f'{n.name}: policy {f}={p["lft"][f]}')
     # ---- 3. every negotiated CHILD_SA: the four NEWSA requests carry exactly the negotiated parameters
     idx = {n: newsa_index(node) for n, node in w.nodes.items()}
+    seen_spis = {}
+    for ch in tap.children:
+        for k in ((ch['x_init'], ch['spi_init']), (ch['x_resp'], ch['spi_resp'])):
+            seen_spis[k] = seen_spis.get(k, 0) + 1
     for ch in tap.children:
         q = quad(w, ch, idx)
         if q is None:
+            continue
+        if scenario.get('byz'):
+            # the Byzantine peer re-uses SPIs: (daddr, proto, SPI) no longer names one negotiation, and clauses 3 and 6, which attribute kernel
+            # requests and events to negotiations by SPI, are left to the other batches
+            reach['byz_run_children_not_attributed'] = reach.get('byz_run_children_not_attributed', 0) + 1
             continue
         tsi = ts_to_kernel(ch['tsi'][0]) if ch['tsi'] else None
         tsr = ts_to_kernel(ch['tsr'][0]) if ch['tsr'] else None
@@ -228,7 +242,7 @@ def judge(w, tap, ctx, scenario, reach):
         if match is not None:
             reach['acquire_decoded'] = reach.get('acquire_decoded', 0) + 1
     # ---- 6. EXPIRE: soft -> rekey of exactly that CHILD_SA, hard -> delete of exactly that CHILD_SA
-    for (t, node, spi, hard) in ctx.get('expires', []):
+    for (t, node, spi, hard) in (ctx.get('expires', []) if not scenario.get('byz') else []):
         after = [m for m in tap.messages if not m['clear'] and m['sender'] == node and not m['h']['R'] and t - 1e-9 <= m['t'] <= t + 0.0001]
         if not after:
             continue             # the daemon was busy: the event was queued (judged by C09), nothing to decode right now
@@ -276,8 +290,47 @@ def run(scenario):
                         ctx['spi_pairs'][bytes(c.outbound_spi)] = bytes(c.inbound_spi)
         w.monitors.append(ExpireLog())
 
+        class DelsaOfTracked:
+            """'Says what was meant': the daemon removes an SA from the kernel when it has stopped (or is stopping) using it.  A DELSA the
+            kernel executed for an SA that the daemon goes on tracking as part of a CHILD_SA removed something else than what was meant."""
+            def __init__(self):
+                self.idx = {}
+
+            def after_step(self, node, cause):
+                reqs = node.kernel.requests
+                i = self.idx.get(node.name, 0)
+                self.idx[node.name] = len(reqs)
+                if node.state != 'running' or node.exited or w.poisoned:
+                    return
+                for r_ in reqs[i:]:
+                    d = r_.get('decoded')
+                    if not d or d.get('kind') != 'delsa' or r_['errno'] or r_.get('injected'):
+                        continue
+                    spi = d['id']['spi']
+                    for sa in node.ike_sas():
+                        if sa.state.name in ('DELETED',):
+                            continue
+                        for c in sa.child_sas:
+                            mine = bytes(c.outbound_spi) == spi and d['id']['daddr_raw'] == _addr_raw(str(sa.peer_addr))
+                            mine = mine or (bytes(c.inbound_spi) == spi and d['id']['daddr_raw'] == _addr_raw(str(sa.my_addr)))
+                            if mine:
+                                w.violation(PROP, 'delsa_removed_an_sa_still_in_use', {'direction': 'outbound' if bytes(c.outbound_spi) == spi else 'inbound'},
+                                            f'{node.name}: the kernel executed DELSA (daddr {d["id"]["daddr_raw"].hex()}, proto {d["id"]["proto"]}, SPI {spi.hex()}) at '
+                                            f't={r_["t"]:.2f}, and after that step IKE_SA {sa.my_spi.hex()} ({sa.state.name}) still tracks the CHILD_SA '
+                                            f'{bytes(c.inbound_spi).hex()}/{bytes(c.outbound_spi).hex()} that SA belongs to')
+                                w.poisoned = True
+                                return
+        w.monitors.append(DelsaOfTracked())
+        if scenario.get('byz'):
+            from sim import byz
+            from sim.interpose import Interposer
+            ip = ctx['ip'] = Interposer(w, ctx['tap'])
+            ctx['byz_reach'] = {}
+            rule, verdict = byz.make(scenario['byz']['kind'], scenario['byz']['seed'], w, ip, ctx['tap'], ctx['byz_reach'])
+            ip.rules.append(rule)
+
     def at_end(w, ctx):
-        ctx['reach'] = {}
+        ctx['reach'] = dict(ctx.get('byz_reach', {}))
         judge(w, ctx['tap'], ctx, scenario, ctx['reach'])
     ctx['at_end'] = at_end
     w = execute(scenario, setup, ctx)
